@@ -79,6 +79,12 @@ theorem rebuildAP_setBefore {e : Expr} (he : e.before = []) {bf : List Trivia} (
   | bin o l r x y b a =>
     simp only [Expr.before] at he; subst he
     simp [Expr.setBefore, Expr.rebuildAP, addTriviaP, fmtP_nil]
+  | ite c t e cg aic aig btc btg atc tg bec beg aec eg b a =>
+    simp only [Expr.before] at he; subst he
+    simp [Expr.setBefore, Expr.rebuildAP, addTriviaP, fmtP_nil]
+  | has e ats lg rg bq aq b a =>
+    simp only [Expr.before] at he; subst he
+    simp [Expr.setBefore, Expr.rebuildAP, addTriviaP, fmtP_nil]
   | asrt c bd x y b a =>
     simp only [Expr.before] at he; subst he
     have hsp : ∀ (bf' a' : List Trivia) (core : List FP), addTriviaP bf' a' core i inl = fmtP bf' i ++ addTriviaP [] a' core i inl := by
@@ -157,6 +163,12 @@ theorem rebuildAP_addAfter_emptyLine {e : Expr} (he : e.effAfter false = []) (hn
   | bin o l r x y b a =>
     simp only [Expr.effAfter, Bool.false_eq_true, if_false] at he; subst he
     simp [Expr.addAfter, Expr.setAfter, Expr.after, Expr.rebuildAP, addTriviaP, trailP_emptyLine, trailP_nil]
+  | ite c t e cg aic aig btc btg atc tg bec beg aec eg b a =>
+    simp only [Expr.effAfter, Bool.false_eq_true, if_false] at he; subst he
+    simp [Expr.addAfter, Expr.setAfter, Expr.after, Expr.rebuildAP, addTriviaP, trailP_emptyLine, trailP_nil]
+  | has e ats lg rg bq aq b a =>
+    simp only [Expr.effAfter, Bool.false_eq_true, if_false] at he; subst he
+    simp [Expr.addAfter, Expr.setAfter, Expr.after, Expr.rebuildAP, addTriviaP, trailP_emptyLine, trailP_nil]
   | asrt c bd x y b a => cases hna
 
 def spacesIf (inl : Bool) (i : Nat) : Text := if inl then [] else spaces i
@@ -209,6 +221,20 @@ theorem cf_parse_notAsrt {c : Cst} {e : Expr} (hcf : c.cf = true) (hp : c.parse 
     · cases hp
     · injection hp with hp; subst hp; rfl
   | un op c g e =>
+    simp only [Cst.parse] at hp
+    split at hp
+    · cases hp
+    · injection hp with hp; subst hp; rfl
+  | ite c1 g1 c c2 g2 c3 g3 t c4 g4 c5 g5 e =>
+    simp only [Cst.parse] at hp
+    split at hp
+    · cases hp
+    · split at hp
+      · cases hp
+      · split at hp
+        · cases hp
+        · injection hp with hp; subst hp; rfl
+  | has e c1 g1 c2 g2 ats =>
     simp only [Cst.parse] at hp
     split at hp
     · cases hp
@@ -429,6 +455,17 @@ theorem flatten_solid : ∀ (c : Cst), c.wf = true → solidT c.flatten
     simp only [Cst.wf, Bool.and_eq_true] at h
     simp only [Cst.flatten]
     exact solidT_append_left' _ (flatten_solid r h.2)
+  | .ite c1 g1 c c2 g2 c3 g3 t c4 g4 c5 g5 e, h => by
+    simp only [Cst.wf, Bool.and_eq_true] at h
+    simp only [Cst.flatten]
+    exact solidT_append_left' _ (flatten_solid e h.2)
+  | .has e c1 g1 c2 g2 attrs, h => by
+    simp only [Cst.wf, Bool.and_eq_true, Bool.not_eq_true', List.isEmpty_eq_false_iff] at h
+    simp only [Cst.flatten]
+    have hat : solidT (attrText attrs) := attrText_solid' attrs h.1.2 h.2
+    rw [show e.flatten ++ flattenGC c1 ++ g1 ++ '?' :: flattenGC c2 ++ g2 ++ attrText attrs =
+      (e.flatten ++ flattenGC c1 ++ g1 ++ '?' :: flattenGC c2 ++ g2) ++ attrText attrs from by simp]
+    exact solidT_append_left' _ hat
 
 /-- leaf texts and the normalised containers are non-empty and do not end in a line break -/
 theorem norm_flatten_solid : ∀ (c : Cst) (i : Nat), c.wf = true → solidT (c.norm i).flatten
@@ -489,6 +526,18 @@ theorem norm_flatten_solid : ∀ (c : Cst) (i : Nat), c.wf = true → solidT (c.
     simp only [Cst.wf, Bool.and_eq_true] at h
     simp only [Cst.norm, Cst.flatten]
     exact solidT_append_left' _ (norm_flatten_solid r _ h.2)
+
+  | .ite c1 g1 c c2 g2 c3 g3 t c4 g4 c5 g5 e, i, h => by
+    simp only [Cst.wf, Bool.and_eq_true] at h
+    simp only [Cst.norm, Cst.flatten]
+    exact solidT_append_left' _ (norm_flatten_solid e _ h.2)
+  | .has e c1 g1 c2 g2 attrs, i, h => by
+    simp only [Cst.wf, Bool.and_eq_true, Bool.not_eq_true', List.isEmpty_eq_false_iff] at h
+    simp only [Cst.norm, Cst.flatten]
+    have hat : solidT (attrText attrs) := attrText_solid' attrs h.1.2 h.2
+    rw [show (e.norm i).flatten ++ flattenGC c1 ++ sepGap g1 ++ '?' :: flattenGC c2 ++ sepGap g2 ++ attrText attrs =
+      ((e.norm i).flatten ++ flattenGC c1 ++ sepGap g1 ++ '?' :: flattenGC c2 ++ sepGap g2) ++ attrText attrs from by simp]
+    exact solidT_append_left' _ hat
 
 /-- what the tree normaliser writes between `=` and the value, and the value -/
 def valueNorm (g2 : Text) (v : Cst) (j : Nat) : Text :=
@@ -889,6 +938,11 @@ theorem norm_head : ∀ (c : Cst) (i : Nat), c.wf = true → headOkB (c.norm i).
     simp only [Cst.wf, Bool.and_eq_true] at h
     simp only [Cst.norm, Cst.flatten, List.append_assoc]
     exact headOkB_append (norm_head l i h.1.1.1.1.1.1.1) _
+  | .ite c1 g1 c c2 g2 c3 g3 t c4 g4 c5 g5 e, i, h => rfl
+  | .has e c1 g1 c2 g2 attrs, i, h => by
+    simp only [Cst.wf, Bool.and_eq_true] at h
+    simp only [Cst.norm, Cst.flatten, List.append_assoc]
+    exact headOkB_append (norm_head e i h.1.1.1.1.1.1) _
 
 theorem ensureIndentPad_head {t : Text} (h : headOkB t = true) (k : Nat) : ensureIndentPad t k = k := by
   cases t with
@@ -928,6 +982,8 @@ theorem absorbable_norm : ∀ (c : Cst) (i : Nat), (c.norm i).absorbableC = c.ab
   | .lam .., _ => rfl
   | .un .., _ => rfl
   | .bin .., _ => rfl
+  | .ite .., _ => rfl
+  | .has .., _ => rfl
 
 theorem headLeaf_norm : ∀ (c : Cst) (i : Nat), (c.norm i).headLeaf = c.headLeaf
   | .leaf .., _ => rfl
@@ -953,6 +1009,8 @@ theorem headLeaf_norm : ∀ (c : Cst) (i : Nat), (c.norm i).headLeaf = c.headLea
   | .lam .., _ => rfl
   | .un .., _ => rfl
   | .bin l c1 g1 op c2 g2 r, i => by simp only [Cst.norm, Cst.headLeaf]; exact headLeaf_norm l i
+  | .ite .., _ => rfl
+  | .has e c1 g1 c2 g2 attrs, i => by simp only [Cst.norm, Cst.headLeaf]; exact headLeaf_norm e i
 
 theorem fusesMinus_norm (c : Cst) (i : Nat) : (c.norm i).fusesMinus = c.fusesMinus := by
   unfold Cst.fusesMinus; rw [headLeaf_norm]
@@ -1110,6 +1168,20 @@ theorem parse_sameOpChain {c : Cst} {e : Expr} (hcf : c.cf = true) (hp : c.parse
     · cases hp
     · injection hp with hp; subst hp; rfl
   | un o c g e0 =>
+    simp only [Cst.parse] at hp
+    split at hp
+    · cases hp
+    · injection hp with hp; subst hp; rfl
+  | ite c1 g1 c0 c2 g2 c3 g3 t c4 g4 c5 g5 e0 =>
+    simp only [Cst.parse] at hp
+    split at hp
+    · cases hp
+    · split at hp
+      · cases hp
+      · split at hp
+        · cases hp
+        · injection hp with hp; subst hp; rfl
+  | has e0 c1 g1 c2 g2 ats =>
     simp only [Cst.parse] at hp
     split at hp
     · cases hp
